@@ -312,6 +312,52 @@ def config_tables():
     return layers, upd, comp_layer
 
 
+# --------------------------------------------------------------------------- interactive stepping APIs
+
+def interactive_tables():
+    """Shape facts about interface/interactive.py that the stepping-API theorems (C01) rest on."""
+    it = _parse("interface/interactive.py")
+    ic = _cls(it, "InteractiveContext")
+    # run_until: `while <clock time> <cmp> end_time:` containing a take_steps / step call
+    ru = _fn(ic, "run_until")
+    cmps = []
+    for n in ast.walk(ru):
+        if isinstance(n, ast.While) and isinstance(n.test, ast.Compare) and len(n.test.ops) == 1:
+            left, right = ast.unparse(n.test.left), ast.unparse(n.test.comparators[0])
+            if "time" in left and "end_time" in right and any(
+                    isinstance(c, ast.Call) and _attr_name(c.func) in ("take_steps", "step") for c in ast.walk(n)):
+                cmps.append(type(n.test.ops[0]).__name__)
+    run_until_cmp = cmps[0] if len(cmps) == 1 else "none"      # "none": the number of steps is computed some other way
+    # take_steps: the `step_size` parameter is never rebound and every self.step(...) call passes exactly it
+    ts = _fn(ic, "take_steps")
+    rebound = any(isinstance(n, (ast.Assign, ast.AugAssign, ast.AnnAssign)) and any(
+        isinstance(t, ast.Name) and t.id == "step_size" for t in (n.targets if isinstance(n, ast.Assign) else [n.target]))
+        for n in ast.walk(ts))
+    calls = [n for n in ast.walk(ts) if isinstance(n, ast.Call) and _attr_name(n.func) == "step"]
+    forwards = bool(calls) and all(
+        (len(c.args) == 1 and isinstance(c.args[0], ast.Name) and c.args[0].id == "step_size" and not c.keywords)
+        or (not c.args and len(c.keywords) == 1 and c.keywords[0].arg == "step_size"
+            and isinstance(c.keywords[0].value, ast.Name) and c.keywords[0].value.id == "step_size") for c in calls)
+    # step: after super().step(), the clock's step size is written back only under `if step_size is not None`
+    st = _fn(ic, "step")
+    seen_super, guarded = False, True
+    for stmt in st.body:
+        has_super = any(isinstance(n, ast.Call) and isinstance(n.func, ast.Attribute) and n.func.attr == "step"
+                        and isinstance(n.func.value, ast.Call) and _attr_name(n.func.value.func) == "super" for n in ast.walk(stmt))
+        if has_super:
+            seen_super = True
+            continue
+        if seen_super:
+            writes = [n for n in ast.walk(stmt) if isinstance(n, ast.Assign)
+                      and any("_clock_step_size" in ast.unparse(t) for t in n.targets)]
+            if writes:
+                ok = isinstance(stmt, ast.If) and "".join(ast.unparse(stmt.test).split()) == "step_sizeisnotNone"
+                guarded = guarded and ok
+    if not seen_super:
+        raise TranslationError("InteractiveContext.step: super().step() not found")
+    return run_until_cmp, (forwards and not rebound), guarded
+
+
 # --------------------------------------------------------------------------- rendering
 
 def _act(a):
@@ -327,6 +373,7 @@ def render_tables() -> str:
     rows, dynamic = constraint_sites()
     n_buckets, default_prio, t_ok, s_ok, fwd = event_tables()
     layers, upd, comp_layer = config_tables()
+    ru_cmp, ts_forwards, step_guarded = interactive_tables()
     o = []
     o.append("/-! GENERATED by vcheck/translate.py from the working tree of the repository under test.")
     o.append("    Never edited by hand; rewritten (when changed) by every run of `./check`. -/")
@@ -382,6 +429,12 @@ def render_tables() -> str:
     o.append("]")
     o.append("/-- layer written by `ComponentManager.apply_configuration_defaults` -/")
     o.append('def componentDefaultsLayer : String := "%s"\n' % comp_layer)
+    o.append("/-- `InteractiveContext.run_until`: comparison of its `while <time> ? end_time` stepping loop (\"none\" = no such loop) -/")
+    o.append('def runUntilLoopCmp : String := "%s"' % ru_cmp)
+    o.append("/-- `take_steps` never rebinds `step_size` and passes exactly it to every `self.step(...)` -/")
+    o.append("def takeStepsForwardsStepSize : Bool := %s" % ("true" if ts_forwards else "false"))
+    o.append("/-- `InteractiveContext.step` writes the old step size back only under `if step_size is not None` -/")
+    o.append("def interactiveStepRestoresOnlyWhenGiven : Bool := %s\n" % ("true" if step_guarded else "false"))
     o.append("end Viv.Gen\n")
     return "\n".join(o)
 
